@@ -203,6 +203,23 @@ func c02Gen(t *rapid.T) c02Case {
 	c.Spec.Clients = []ClientSpec{cs}
 	c.SlowReader = rapid.IntRange(0, 5).Draw(t, "slow") == 0
 	c.Spec.Abandoned = genAbandoned(t)
+	if !c.SlowReader && rapid.IntRange(0, 4).Draw(t, "movedslots") == 0 {
+		// the slots of one or two requests have moved: the old owner answers -MOVED and the request is sent again,
+		// byte for byte, to the node that was named
+		for k := rapid.IntRange(1, 2).Draw(t, "nmoved"); k > 0; k-- {
+			r := &cs.Reqs[rapid.IntRange(0, len(cs.Reqs)-1).Draw(t, "movedreq")]
+			slot := refmodel.KeySlot(keyOfReq(r))
+			dup := false
+			for _, m := range c.Spec.Moved {
+				if m.Slot == slot {
+					dup = true
+				}
+			}
+			if !dup {
+				c.Spec.Moved = append(c.Spec.Moved, SlotNode{Slot: slot, Node: (c13NodeOf(slot) + 1 + rapid.IntRange(0, 1).Draw(t, "movedto")) % 3})
+			}
+		}
+	}
 	if n >= 2 && rapid.IntRange(0, 2).Draw(t, "holdhead") == 0 {
 		c.HoldHead = true
 		k0 := keyOfReq(&c.Spec.Clients[0].Reqs[0])
@@ -280,6 +297,10 @@ func c02Classify(c *c02Case) (bool, []string) {
 		nt = true
 		cls = append(cls, "backlog-read-in-part-then-more-requests")
 	}
+	if len(c.Spec.Moved) > 0 {
+		nt = true
+		cls = append(cls, "request-sent-again-after-moved")
+	}
 	if len(c.Spec.Abandoned) > 0 {
 		cls = append(cls, "after-clients-that-left-mid-request")
 	}
@@ -340,6 +361,10 @@ func c02Run(f *Fixture, c *c02Case) []Discrepancy {
 	ds = compareReplies("C02", 0, &res.Clients[0], exp, ds)
 	// backend side: every request arrived exactly once, byte-exact modulo the case of the name, at a node of the owning replica set
 	used := make([]bool, len(res.Log))
+	moved := map[int]int{}
+	for _, m := range c.Spec.Moved {
+		moved[m.Slot] = m.Node
+	}
 	for i := range c.Spec.Clients[0].Reqs {
 		r := &c.Spec.Clients[0].Reqs[i]
 		sent := r.Encode()
@@ -347,8 +372,18 @@ func c02Run(f *Fixture, c *c02Case) []Discrepancy {
 		slot := refmodel.KeySlot(key)
 		found := -1
 		var near *fakecluster.Request
+		target, isMoved := moved[slot]
+		if isMoved {
+			// the first hop (answered -MOVED by the old owner) is accounted for, the copy that counts is the target's
+			for j, lr := range res.Log {
+				if !used[j] && lr.Node != target && sameModuloName(sent, lr.Raw, len(r.Name)) {
+					used[j] = true
+					break
+				}
+			}
+		}
 		for j, lr := range res.Log {
-			if used[j] {
+			if used[j] || (isMoved && lr.Node != target) {
 				continue
 			}
 			if sameModuloName(sent, lr.Raw, len(r.Name)) {
@@ -370,6 +405,9 @@ func c02Run(f *Fixture, c *c02Case) []Discrepancy {
 		used[found] = true
 		lr := res.Log[found]
 		own := f.Owners[slot]
+		if isMoved {
+			continue // found at the node the redirection names
+		}
 		okNode := lr.Node == own.Master
 		for _, rep := range own.Replicas {
 			if lr.Node == rep && !c.Cfg.DisableSlave {
